@@ -43,7 +43,7 @@ PROPS = {
                       'harnesses': ['field32_bytes', 'field64_bytes', 'field128_bytes', 'ints_roundtrip', 'items_encode_roundtrip', 'u8_u16_u32_items_total',
                                     'p3c_input_share_helper', 'p3c_public_share', 'p3c_verifier_share_msg', 'p3c_output_agg_share', 'prio3_bad_agg_id_decode']},
                      {'files': KC + ['f255_util.rs', 'idpf_util.rs', 'c07_codec.rs', 'c07_poplar1.rs'],
-                      'harnesses': ['pop_agg_param_encoded_len', 'pop_sketch_state_tags']}],
+                      'harnesses': ['pop_agg_param_encoded_len', 'pop_sketch_state_tags', 'pop_agg_param_decode_levels']}],
         },
         'thorough': {
             'kani': [{'files': KC + ['c07_codec.rs', 'c07_prio3.rs'], 'harnesses': ['p3c_input_share_leader', 'p3c_verify_state'], 'timeout': 1500},
@@ -60,10 +60,11 @@ PROPS = {
                       'harnesses': ['fixlen_items_total', 'u8_u16_u32_items_total', 'ints_roundtrip', 'fixlen_zero_width_item', 'field64_bytes',
                                     'p3c_input_share_helper', 'p3c_verifier_share_msg', 'prio3_bad_agg_id_decode']},
                      {'files': KC + ['f255_util.rs', 'idpf_util.rs', 'c07_codec.rs', 'c07_poplar1.rs'],
-                      'harnesses': ['pop_sketch_state_tags', 'pop_agg_param_encoded_len']}],
+                      'harnesses': ['pop_sketch_state_tags', 'pop_agg_param_encoded_len', 'pop_agg_param_decode_levels']}],
         },
         'thorough': {
-            'kani': [{'files': KC + ['c07_codec.rs', 'c07_prio3.rs'], 'harnesses': ['p3c_input_share_leader', 'p3c_verify_state'], 'timeout': 1500}],
+            'kani': [{'files': KC + ['c07_codec.rs', 'c07_prio3.rs'], 'harnesses': ['p3c_input_share_leader', 'p3c_verify_state'], 'timeout': 1500},
+                     {'files': KC + ['f255_util.rs', 'idpf_util.rs', 'c07_codec.rs', 'c07_poplar1.rs'], 'harnesses': ['pop_agg_param_header_total'], 'timeout': 1500}],
         },
     },
     'C16': {
